@@ -245,6 +245,26 @@ M("manager-unknown-deform-name-ignored", ["C10"], "gaddlemaps/_manager.py",
   "        for name in deformations:\n            if name not in complete_correspondence:", "        for name in deformations:\n            if False:")
 M("manager-restraint-index-not-validated", ["C10"], "gaddlemaps/_manager.py",
   "            try:\n                ind2 = mol_end[tup[1]]\n            except IndexError:\n                raise ValueError(msg_index.format(tup[1], 'final'))", "            pass")
+# ---- extrapolation pipeline ---------------------------------------------------------------------
+M("extrapolate-atom-counter-stuck", ["C05"], "gaddlemaps/_manager.py",
+  "                    line[3] = atom_index\n                    atom_index += 1", "                    line[3] = atom_index")
+M("extrapolate-counter-restarts-per-molecule", ["C05"], "gaddlemaps/_manager.py",
+  "                new_mol = complete_correspondence[name].exchange_map(mol)  # type: ignore", "                new_mol = complete_correspondence[name].exchange_map(mol)  # type: ignore\n                atom_index = 1 if len(new_mol) == 1 else atom_index")
+M("extrapolate-no-preflight", ["C05"], "gaddlemaps/_manager.py",
+  "            if align.exchange_map is None:", "            if False:")
+M("extrapolate-title-not-forwarded", ["C05"], "gaddlemaps/_manager.py",
+  "            fgro.comment = self.system.system_gro.comment_line\n", "")
+M("extrapolate-box-not-forwarded", ["C05"], "gaddlemaps/_manager.py",
+  "            fgro.box_matrix = self.system.system_gro.box_matrix\n", "")
+M("extrapolate-grouped-by-species", ["C05"], "gaddlemaps/_manager.py",
+  "            for mol in self.system:\n                name = mol.name", "            for mol in sorted(self.system, key=lambda m: m.name):\n                name = mol.name")
+M("extrapolate-box-transposed", ["C05"], "gaddlemaps/_manager.py",
+  "            fgro.box_matrix = self.system.system_gro.box_matrix\n", "            fgro.box_matrix = self.system.system_gro.box_matrix.T\n")
+M("extrapolate-uses-template-molecule", ["C05"], "gaddlemaps/_manager.py",
+  "                new_mol = complete_correspondence[name].exchange_map(mol)  # type: ignore", "                new_mol = complete_correspondence[name].exchange_map(complete_correspondence[name].start if len(mol) == 2 else mol)  # type: ignore")
+M("premature-check-after-open", ["C05"], "gaddlemaps/_manager.py",
+  ["        for align in complete_correspondence.values():\n            if align.exchange_map is None:\n                raise SystemError(('Before extrapolating the system, '\n                                   'calculate_exchange_maps method must be '\n                                   'called.'))\n\n        with open_coordinate_file(fgro_out, 'w') as fgro:\n"],
+  ["        with open_coordinate_file(fgro_out, 'w') as fgro:\n            for align in complete_correspondence.values():\n                if align.exchange_map is None:\n                    raise SystemError('calculate_exchange_maps method must be called.')\n"])
 # ---- pbc --------------------------------------------------------------------------
 M("pbc-floor-instead-of-round", ["C19"], "gaddlemaps/components/_residue.py",
   "            vect -= np.round(vect)", "            vect -= np.floor(vect)")
